@@ -271,7 +271,8 @@ def gen_hets(rng, nmax=40):
 
 
 def _gen_segs(rng, contigs, span):
-    style = rng.choice(["tile", "tile", "tile", "gaps", "overlap", "nested", "foreign", "empty", "one"])
+    style = rng.choice(["tile", "tile", "tile", "tile", "gaps", "gaps", "overlap", "nested", "foreign", "empty", "one",
+                        "interleaved" if rng.random() < 0.3 else "tile"])
     if style == "empty":
         return []
     segs = []
@@ -298,6 +299,8 @@ def _gen_segs(rng, contigs, span):
         if style == "nested":
             segs_c = sorted([s for s in segs if s[0] == c], key=lambda s: (s[1], s[2]))
             segs = [s for s in segs if s[0] != c] + segs_c
+    if style == "interleaved":
+        rng.shuffle(segs)  # not a segment table: the model mirrors the code, the spec is not applied
     return segs
 
 
@@ -319,8 +322,8 @@ def gen_table(rng, nmax=60):
     contigs.sort(key=sorter_chrom)
     paired = rng.random() < 0.5
     dyadic = rng.random() < 0.4
-    n = rng.choice([0, 1, 2]) if rng.random() < 0.12 else rng.randint(1, nmax)
-    hom_only = rng.random() < 0.06
+    n = rng.choice([0, 1, 2]) if rng.random() < 0.08 else rng.randint(3, nmax)
+    hom_only = rng.random() < 0.03
     rows, span = [], 0
     for c in contigs:
         pos = 0
